@@ -623,7 +623,7 @@ func TestC15(t *testing.T) {
 func c15PartialOversize(t *testing.T, c *ev.Collector) {
 	idx := 0
 	for _, p := range AllProtos {
-		for _, kind := range []Kind{KServer, KBidi} {
+		for _, kind := range []Kind{KServer, KBidi, KUnary, KClient} {
 			for _, dl := range []bool{false, true} {
 				for _, arrived := range []int{5, 55} {
 					idx++
@@ -636,7 +636,11 @@ func c15PartialOversize(t *testing.T, c *ev.Collector) {
 						h := http.HandlerFunc(func(w http.ResponseWriter, r *http.Request) {
 							w.Header().Set("Content-Type", contentType(p, kind, false))
 							w.WriteHeader(200)
-							_, _ = w.Write(refwire.Envelope(0, bytes.Repeat([]byte{'x'}, 100))[:arrived])
+							body := refwire.Envelope(0, bytes.Repeat([]byte{'x'}, 100))[:arrived]
+							if p == PConnect && kind == KUnary {
+								body = bytes.Repeat([]byte{'x'}, arrived+5) // the body is the message: more than the limit, and not finished
+							}
+							_, _ = w.Write(body)
 							w.(http.Flusher).Flush()
 							<-r.Context().Done()
 						})
@@ -652,6 +656,14 @@ func c15PartialOversize(t *testing.T, c *ev.Collector) {
 						go func() {
 							defer close(done)
 							switch kind {
+							case KUnary:
+								_, recvErr = cl.CallUnary(ctx, connect.NewRequest(&BV{Value: []byte{1}}))
+								afterErr = recvErr
+							case KClient:
+								s := cl.CallClientStream(ctx)
+								_ = s.Send(&BV{Value: []byte{1}})
+								_, recvErr = s.CloseAndReceive()
+								afterErr = recvErr
 							case KServer:
 								s, err := cl.CallServerStream(ctx, connect.NewRequest(&BV{Value: []byte{1}}))
 								if err != nil {
